@@ -454,7 +454,7 @@ Definition dec_input (t : tree) : option input :=
   | T [L 0; T [L mr; L ev; L ml]; ops] =>
       ops <- getList dec_op ops ;;
       if (1 <=? ev) then Some (ILogic {| c_maxrec := mr; c_every := ev; c_maxlag := ml |} ops) else None
-  | T [L 1; L rate; L n; L np; L nm] => if (1 <=? rate) then Some (ITiming rate n np nm) else None
+  | T (L 1 :: L rate :: L n :: L np :: L nm :: _) => if (1 <=? rate) then Some (ITiming rate n np nm) else None
   | _ => None
   end.
 
